@@ -97,23 +97,18 @@ Fixpoint feeds (c : chain) (xs : list bytes) {struct c} : chain * nat :=
       (Stage T st' next', count_chunks oss a)
   | Plex all bs =>
       let n := length xs in
-      let acc := (fix go (bs : list (bool * chain)) : list nat :=
-                    match bs with
-                    | [] => []
-                    | (false, _) :: r => go r
-                    | (true, b) :: r => snd (feeds b xs) :: go r
-                    end) bs in
+      (* every branch on its own: (flag, chain before, (chain after, buffers accepted)) *)
+      let rs := map (fun fb : bool * chain => match fb with (f, b) => (f, b, feeds b xs) end) bs in
+      let acc := map (fun r : bool * chain * (chain * nat) => snd (snd r))
+                     (filter (fun r : bool * chain * (chain * nat) => fst (fst r)) rs) in
       if all then
         (* stops at the first rejection by any branch, in index order *)
         let k := match acc with [] => O | _ => list_min n acc end in
         if Nat.eqb k n then
-          (Plex all ((fix go (bs : list (bool * chain)) : list (bool * chain) :=
-                        match bs with
-                        | [] => []
-                        | (false, b) :: r => (false, b) :: go r
-                        | (true, b) :: r => (true, fst (feeds b xs)) :: go r
-                        end) bs), n)
+          (Plex all (map (fun r : bool * chain * (chain * nat) =>
+                            if fst (fst r) then (true, fst (snd r)) else (false, snd (fst r))) rs), n)
         else
+          (* branches before the first rejecting one got buffer k, it is dropped, later ones did not get it *)
           (Plex all ((fix go (bs : list (bool * chain)) (hit : bool) : list (bool * chain) :=
                         match bs with
                         | [] => []
@@ -127,12 +122,8 @@ Fixpoint feeds (c : chain) (xs : list bytes) {struct c} : chain * nat :=
       else
         (* a branch that rejects is dropped; the call fails when no branch accepted *)
         let k := list_max acc in
-        (Plex all ((fix go (bs : list (bool * chain)) : list (bool * chain) :=
-                      match bs with
-                      | [] => []
-                      | (false, b) :: r => (false, b) :: go r
-                      | (true, b) :: r => let '(b', a) := feeds b xs in (Nat.eqb a n, b') :: go r
-                      end) bs), k)
+        (Plex all (map (fun r : bool * chain * (chain * nat) =>
+                          if fst (fst r) then (Nat.eqb (snd (snd r)) n, fst (snd r)) else (false, snd (fst r))) rs), k)
   end.
 
 (* feed every buffer, and call done if (and only if) all were accepted:
@@ -158,37 +149,37 @@ Fixpoint runc (c : chain) (xs : list bytes) {struct c} : chain * nat * bool :=
       end
   | Plex all bs =>
       let n := length xs in
-      let '(c', k) := feeds (Plex all bs) xs in
-      if negb (Nat.eqb k n) then (c', k, false)
+      (* every branch on its own: (flag, chain before, (chain after, accepted, verdict)) *)
+      let rr := map (fun fb : bool * chain => match fb with (f, b) => (f, b, runc b xs) end) bs in
+      let live := filter (fun r : bool * chain * (chain * nat * bool) => fst (fst r)) rr in
+      let acc := map (fun r : bool * chain * (chain * nat * bool) => snd (fst (snd r))) live in
+      let vs := map (fun r : bool * chain * (chain * nat * bool) => snd (snd r)) live in
+      let k := if all then match acc with [] => O | _ => list_min n acc end
+               else Nat.min n (list_max acc) in
+      if negb (Nat.eqb k n) then (fst (feeds (Plex all bs) xs), k, false)
       else if all then
-        let live := (fix go (bs : list (bool * chain)) : list bool :=
-                       match bs with
-                       | [] => []
-                       | (false, _) :: r => go r
-                       | (true, b) :: r => snd (runc b xs) :: go r
-                       end) bs in
-        match live with
-        | [] => (c', k, false)
+        match vs with
+        | [] => (fst (feeds (Plex all bs) xs), k, false)
         | _ =>
-            (Plex all ((fix go (bs : list (bool * chain)) (hit : bool) : list (bool * chain) :=
-                          match bs with
-                          | [] => []
-                          | (false, b) :: r => (false, b) :: go r hit
-                          | (true, b) :: r =>
-                              if hit then (true, fst (feeds b xs)) :: go r true
-                              else let '(b', _, v) := runc b xs in
-                                   if v then (true, b') :: go r false else (false, b') :: go r true
-                          end) bs false), k, forallb (fun v => v) live)
+            if forallb (fun v => v) vs then
+              (Plex all (map (fun r : bool * chain * (chain * nat * bool) =>
+                                if fst (fst r) then (true, fst (fst (snd r))) else (false, snd (fst r))) rr), k, true)
+            else
+              (* done stops at the first failing branch *)
+              (Plex all ((fix go (bs : list (bool * chain)) (hit : bool) : list (bool * chain) :=
+                            match bs with
+                            | [] => []
+                            | (false, b) :: r => (false, b) :: go r hit
+                            | (true, b) :: r =>
+                                if hit then (true, fst (feeds b xs)) :: go r true
+                                else let '(b', _, v) := runc b xs in
+                                     if v then (true, b') :: go r false else (false, b') :: go r true
+                            end) bs false), k, false)
         end
       else
-        let res := (fix go (bs : list (bool * chain)) : list (bool * chain) :=
-                      match bs with
-                      | [] => []
-                      | (false, b) :: r => (false, b) :: go r
-                      | (true, b) :: r =>
-                          let '(b', a, v) := runc b xs in ((Nat.eqb a n) && v, b') :: go r
-                      end) bs in
-        (Plex all res, k, existsb (fun fb => fst fb) res)
+        (Plex all (map (fun r : bool * chain * (chain * nat * bool) =>
+                          if fst (fst r) then (snd (snd r), fst (fst (snd r))) else (false, snd (fst r))) rr),
+         k, existsb (fun v => v) vs)
   end.
 
 Definition run (c : chain) (xs : list bytes) : chain * bool :=
